@@ -45,7 +45,7 @@ class Spec:
     def queries(self, tier, bld):
         return []
 
-    def prechecks(self, bld):
+    def prechecks(self, bld, tier='quick'):
         return []
 
 
@@ -174,10 +174,17 @@ class C03(Spec):
 
 class C06(Spec):
     functions = CORE_FUNCS
+
+    def prechecks(self, bld, tier='quick'):
+        if tier != 'thorough':
+            return []
+        from . import selftest
+        return [selftest.lowering_validation(bld)]
+
     def queries(self, tier, bld):
         qs = [core_q('C06.verdict.L12', ['PROP_C06'], L=12)]
         # memory safety + leak balance of the whole verify path, exact (end-aligned) allocator
-        q = core_q('C06.core.mem.L8', ['PROP_C06_MEM', 'VF_EXACT_END', 'VJ_CHECK_DEAD', 'PV_MACLEN=1', 'NO_CB'], L=8, budget=900)
+        q = core_q('C06.core.mem.L8', ['PROP_C06_MEM', 'VF_EXACT_END', 'VJ_CHECK_DEAD', 'PV_MACLEN=1', 'NO_CB'], L=8, budget=900, unwind=14)
         q.checks = 'memsafe-noconv'
         q.defines = [d for d in q.defines if d != 'VF_FREE_NOOP']
         q.mem_gb = 10
@@ -345,6 +352,7 @@ class C16(Spec):
                                    '(NULL, a, b, ab: duplicates possible), ownership (oct bytes / provider / none) symbolic' % n,
                                    'operations': '1 (inductive step; the full list representation invariant is re-established)'})
                 q.unwindset = {f + '.0': n + 2 for f in LIST_LOOPS}
+                q.mem_gb = 12 if (n >= 3 or (n >= 2 and nm in ('free_all', 'jwks_free', 'free_bad'))) else 3
                 qs.append(q)
         return qs
 
@@ -381,8 +389,8 @@ class C07(Spec):
         qs.append(mk(2, 'single', 0, 'create', 0, 'memsafe-noconv', 11))
         if tier == 'thorough':
             qs.append(mk(5, 'keys1', 1, 'load', 1, 'memsafe-noconv', 14))      # 540 s, 10.9 GB
-        for sn in ('notjson', 'nonobject', 'keys_nonarray', 'keys0', 'keys2scalar'):
-            qs.append(mk(shapes.index(sn), sn, 1, 'load', 1, 'memsafe-noconv', 10 if sn in ('nonobject', 'keys2scalar') else 3))
+        for sn in ('notjson', 'nonobject', 'keys_nonarray', 'keys0'):
+            qs.append(mk(shapes.index(sn), sn, 1, 'load', 1, 'memsafe-noconv', 10 if sn == 'nonobject' else 3))
         if tier == 'thorough':
             q = mk(6, 'keys2', 0, 'create', 0, 'verdict', 40)
             q.budget = 5400
@@ -496,11 +504,14 @@ class C05(Spec):
     functions = ['gnutls_sign_sha_pem', 'gnutls_sign_sha_hmac', 'gnutls_verify_sha_pem']
 
     def queries(self, tier, bld):
-        qs = [gnutls_q('C05.gnutls.sign_ec.%s' % a[8:], ['SIDE_SIGN_EC', 'ONLY_ALG=%s' % a], budget=900)
-              for a in ('JWT_ALG_ES256', 'JWT_ALG_ES384', 'JWT_ALG_ES512')]
+        qs = [gnutls_q('C05.gnutls.sign_ec.%s' % a[8:], ['SIDE_SIGN_EC', 'ONLY_ALG=%s' % a], budget=1800)
+              for a in (('JWT_ALG_ES256', 'JWT_ALG_ES512') if tier == 'quick' else ('JWT_ALG_ES256', 'JWT_ALG_ES384', 'JWT_ALG_ES512'))]
         qs.append(gnutls_q('C05.gnutls.sign', ['SIDE_SIGN']))
         qs += [ossl_q('C05.ossl.sign_ec.%s' % a[8:], ['SIDE_SIGN_EC', 'ONLY_ALG=%s' % a], budget=900)
-               for a in (('JWT_ALG_ES256', 'JWT_ALG_ES512') if tier == 'quick' else ('JWT_ALG_ES256', 'JWT_ALG_ES256K', 'JWT_ALG_ES384', 'JWT_ALG_ES512'))]
+               for a in (('JWT_ALG_ES256',) if tier == 'quick' else ('JWT_ALG_ES256', 'JWT_ALG_ES256K', 'JWT_ALG_ES384', 'JWT_ALG_ES512'))]   # ES512: 700 s
+        for q in qs:
+            if 'ossl.sign_ec' in q.name:
+                q.budget = 3000
         qs.append(ossl_q('C05.ossl.sign', ['SIDE_SIGN']))
         qs.append(ossl_q('C05.ossl.verify.pss', ['SIDE_VERIFY', 'NOT_ES']))
         return qs
@@ -545,7 +556,7 @@ class C17(Spec):
             for k in ks:
                 q = ring_q('C17.load.%s.k%02d' % (sn, k), ['SIDE_LOAD', 'SHAPE=%d' % sh, 'ROUTE=1', 'PRE=%d' % (1 if sn == 'keys1' else 0), 'FAULT_K=%d' % k, 'VF_NO_REACH', 'JWK_SMALL'],
                            bounds={'failing allocation index': k, 'document': sn + ' (members kty, k, kid)'}, checks='pointer', budget=1500)
-                q.mem_gb = 3 if k < 4 else 14
+                q.mem_gb = (3 if k < 3 else 14) if sn == 'single' else (3 if k < 2 else 14)
                 q.unwindset = {f + '.0': 5 for f in LIST_LOOPS}
                 qs.append(q)
         return qs
